@@ -31,7 +31,7 @@ S(x) == {x[i] : i \in DOMAIN x}
 
 \* the model state the observed projection stands for (attachments are the session's own)
 ModelSt(p) == [ver |-> p.ver, uid |-> p.uid, lvl |-> p.lvl, att |-> {[t |-> x, u |-> p.uid] : x \in S(p.att)},
-               rst |-> FALSE, crashed |-> FALSE]
+               rst |-> FALSE, tok |-> NoTok, crashed |-> FALSE]
 
 Dem(v)   == IF v.dem # "" THEN v.dem ELSE Demand(ModelSt(v.pre), v.m)
 Stage(v) == IF v.stage # "" THEN v.stage ELSE IF HandlerStage(ModelSt(v.pre), v.m) THEN "handler" ELSE "pre"
